@@ -270,3 +270,52 @@ def par_family():
         extra = cfg_pre + ["@proc", "def tp_cfgw():", "    TPCfg.scale = 2.0"]
         out.append(_par(f"tp{k}", "x: f32[8], y: f32[8]", ["for i in par(0, 8):"] + body, extra_pre=extra))
     return out
+
+
+# ---------------------------------------------------------------------------
+# C02 / C08: lifetime of allocations (where the backend may place free()), name disambiguation, scalars
+
+
+def mem_family():
+    """an allocation whose LAST use sits in every syntactic position: then-branch, else-branch, nested loop,
+    call argument, window alias, loop bound of nothing (never used), second of two ifs, inside both branches"""
+    out = []
+    k = 0
+    sig = "n: size, f: index, src: f32[n], dst: f32[n]"
+    fill = ["tmp: f32[n]", "for i in seq(0, n):", "    tmp[i] = 2.0 * src[i]"]
+    use = ["for i in seq(0, n):", "    dst[i] = tmp[i]"]
+    other = ["for i in seq(0, n):", "    dst[i] = src[i]"]
+
+    def ind(ls, by=1):
+        return ["    " * by + l for l in ls]
+
+    shapes = {
+        "then": ["if f > 1:"] + ind(use) + ["else:"] + ind(other),
+        "else": ["if f > 1:"] + ind(other) + ["else:"] + ind(use),
+        "both": ["if f > 1:"] + ind(use) + ["else:"] + ind(use),
+        "then_only": ["if f > 1:"] + ind(use),
+        "nested_else": ["if f > 1:"] + ind(other) + ["else:"] + ind(["if f > 0:"] + ind(other) + ["else:"] + ind(use)),
+        "loop_else": ["for r in seq(0, 2):"] + ind(["if r < 1:"] + ind(other) + ["else:"] + ind(use)),
+        "else_then_after": ["if f > 1:"] + ind(other) + ["else:"] + ind(use) + ["for i in seq(0, n):", "    dst[i] += src[i]"],
+        "plain": use,
+        "two_ifs": ["if f > 1:"] + ind(use) + ["if f > 2:"] + ind(other) + ["else:"] + ind(use),
+    }
+    for nm, body in shapes.items():
+        k += 1
+        out.append(_p(f"tm{k}_{nm}", sig, fill + body))
+    # a second allocation declared inside the else-branch next to the last use of the first
+    k += 1
+    out.append(_p(f"tm{k}_else_alloc", sig, fill + ["if f > 1:"] + ind(other) + ["else:"] + ind(["y: f32[n]", "for i in seq(0, n):", "    y[i] = 1.0", "for i in seq(0, n):", "    dst[i] = tmp[i] + y[i]"])))
+    # last use through a window alias / call argument in a branch
+    k += 1
+    out.append(_with_pre(f"tm{k}_alias_else", "f: index, src: f32[4], dst: f32[4]", ["tmp: f32[8]", "for i in seq(0, 8):", "    tmp[i] = 1.0", "w = tmp[2:6]", "if f > 1:", "    pass", "else:", "    for i in seq(0, 4):", "        dst[i] = w[i] + src[i]"]))
+    k += 1
+    out.append(_with_pre(f"tm{k}_call_else", "f: index, src: f32[4], dst: f32[4]", ["tmp: f32[8]", "for i in seq(0, 8):", "    tmp[i] = 1.0", "if f > 1:", "    pass", "else:", "    tw_acc(dst[0:4], tmp[2:6])"]))
+    k += 1
+    out.append(_with_pre(f"tm{k}_call_then", "f: index, src: f32[4], dst: f32[4]", ["tmp: f32[8]", "for i in seq(0, 8):", "    tmp[i] = 1.0", "if f > 1:", "    tw_acc(dst[0:4], tmp[2:6])"]))
+    # allocations inside loops and branches (free on every path, once)
+    k += 1
+    out.append(_p(f"tm{k}_alloc_in_else", sig, ["if f > 1:"] + ind(other) + ["else:"] + ind(fill + use)))
+    k += 1
+    out.append(_p(f"tm{k}_alloc_in_loop_if", sig, ["for r in seq(0, 2):"] + ind(["t2: f32[n]", "for i in seq(0, n):", "    t2[i] = src[i]", "if r < 1:"] + ind(other) + ["else:"] + ind(["for i in seq(0, n):", "    dst[i] = t2[i]"]))))
+    return out
